@@ -848,6 +848,28 @@ class Interp:
             self.set_attr(self.eval(t.value, fr), t.attr, v, t, fr)
         elif isinstance(t, ast.Subscript):
             self.bi.store_subscript(self.eval(t.value, fr), self.eval(t.slice, fr), v, t, fr)
+        elif isinstance(t, (ast.Tuple, ast.List)) and any(isinstance(x, ast.Starred) for x in t.elts):
+            si = [i for i, x in enumerate(t.elts) if isinstance(x, ast.Starred)][0]
+            before, after = t.elts[:si], t.elts[si + 1:]
+            if isinstance(v, ListV) and v.absorbed is not None:
+                v = v.absorbed
+            if isinstance(v, (ListV, TupleV)):
+                n = len(v.items)
+                if n < len(before) + len(after):
+                    self.raise_exc("ValueError", [Str.lit("not enough values to unpack")], t, fr)
+                for e, x in zip(before, v.items[:len(before)]):
+                    self.assign(e, x, fr)
+                self.assign(t.elts[si].value, ListV(list(v.items[len(before):n - len(after)])), fr)
+                for e, x in zip(after, v.items[n - len(after):] if after else []):
+                    self.assign(e, x, fr)
+            elif isinstance(v, AbsList):
+                for i, e in enumerate(before):
+                    self.assign(e, self.bi.subscript(v, IntV(i), t, fr), fr)
+                self.assign(t.elts[si].value, v.with_flags(sliced="[star]"), fr)
+                for i, e in enumerate(after):
+                    self.assign(e, self.bi.subscript(v, IntV(i - len(after)), t, fr), fr)
+            else:
+                raise self.unsupported(f"starred unpacking of {v!r}", t, fr)
         elif isinstance(t, (ast.Tuple, ast.List)):
             items = self.bi.unpack(v, len(t.elts), t, fr)
             for e, x in zip(t.elts, items):
@@ -1239,7 +1261,17 @@ class Interp:
         return v
 
     def ex_DictComp(self, e: ast.DictComp, fr: Frame) -> Value:
-        raise self.unsupported("dict comprehension", e, fr)
+        pair = ast.Tuple(elts=[e.key, e.value], ctx=ast.Load())
+        ast.copy_location(pair, e)
+        ast.fix_missing_locations(pair)
+        lst = self.bi.comprehension(e, pair, e.generators, fr, "list")
+        if isinstance(lst, ListV) and lst.absorbed is None:
+            d = DictV([])
+            for kv in lst.items:
+                assert isinstance(kv, TupleV)
+                self.bi.store_subscript(d, kv.items[0], kv.items[1], e, fr)
+            return d
+        raise self.unsupported("dict comprehension over an abstract iterable", e, fr)
 
     def ex_Await(self, e: ast.Await, fr: Frame) -> Value:
         raise self.unsupported("await", e, fr)
